@@ -322,3 +322,43 @@ fn c01_collect_signatures_verification_keys_in_order() {
         j += 1;
     }
 }
+
+/// contract used by the Verus unit preliminary_verify for the iterator expression that builds the Merkle leaves
+/// (`self.signatures.iter().filter_map(|r| r.reg_party.clone().into()).collect()`): the membership check receives exactly
+/// the (committed key, committed stake) pair of EVERY signature, in signature order, together with this proof's batch path
+/// and the aggregate key's commitment. The per-index checks are stubbed out (their contract: Verus unit check_indices).
+fn stub_check_indices_ok(_s: &SingleSignature, _p: &Parameters, _stake: &crate::Stake, _msg: &[u8], _total: &crate::Stake) -> StmResult<()> {
+    Ok(())
+}
+
+#[kani::proof]
+#[kani::unwind(6)]
+#[kani::stub(crate::protocol::single_signature::signature::SingleSignature::check_indices, stub_check_indices_ok)]
+#[kani::stub(crate::membership_commitment::merkle_tree::commitment::MerkleTreeBatchCommitment::verify_leaves_membership_from_batch_path, stub_merkle_verify)]
+#[kani::stub(std::backtrace::Backtrace::capture, stub_backtrace)]
+#[kani::stub(std::hash::RandomState::new, stub_random_state)]
+#[kani::stub(std::collections::HashSet::insert, stub_hashset_insert)]
+#[kani::stub(std::collections::HashSet::len, stub_hashset_len)]
+#[kani::stub(alloc::fmt::format, stub_format)]
+fn c01_preliminary_verify_membership_operands() {
+    let stake: u64 = kani::any();
+    let signatures = vec![SingleSignatureWithRegisteredParty {
+        sig: SingleSignature {
+            concatenation_signature: SingleSignatureForConcatenation::new(sig_with_tag(10), vec![3u64]),
+            signer_index: 0,
+        },
+        reg_party: ClosedRegistrationEntry::new(vk_with_tag(20), stake),
+    }];
+    // a batch path of arbitrary (here: mismatching, empty) shape: the leaves must not depend on it
+    let proof: ConcatenationProof<MD> = ConcatenationProof { signatures, batch_proof: MerkleBatchPath::new(vec![], vec![]) };
+    let params = Parameters { m: 10, k: 0, phi_f: 0.5 };
+    let root: u8 = kani::any();
+    let avk = make_avk::<MD>(vec![root], 4, kani::any());
+    let r = proof.preliminary_verify(&[1u8], &avk, &params);
+    let ok = r.is_ok();
+    std::mem::forget(r);
+    assert!(unsafe { MERKLE_CALLS } == 1, "C01 Merkle membership is checked exactly once");
+    let want = MerkleCall { root0: root, n_leaves: 1, leaf_vk: [20, 0], leaf_stake: [stake, 0], proof_ptr: &proof.batch_proof as *const _ as usize, ok };
+    assert!(unsafe { MERKLE_LOG } == Some(want), "C01 membership check gets the (key, stake) of every signature, in order, with this proof's batch path and the avk's commitment");
+    kani::cover!(ok, "accepted when membership holds");
+}
